@@ -354,7 +354,7 @@ class Analysis:
             return [(self.fresh(st, "?", False), st)]
         if k == "bin":
             op = e["op"]
-            if op in ("<", "<=", ">", ">=", "==", "!="):
+            if op in ("<", "<=", ">", ">=", "==", "!=", "&&", "||"):
                 t, fl = self.branch(f, e, st)
                 return [(lconst(1), s) for s in t] + [(lconst(0), s) for s in fl]
             if op in ("+", "-", "*") and not e.get("pd"):
@@ -490,6 +490,22 @@ class Analysis:
         if isinstance(e, dict) and e.get("k") == "un" and e.get("op") == "!":
             t, fl = self.branch(f, e["e"], st)
             return fl, t
+        if isinstance(e, dict) and e.get("k") == "bin" and e["op"] in ("&&", "||"):
+            lt_, lf_ = self.branch(f, e["l"], st)
+            T, F = [], []
+            if e["op"] == "&&":
+                F += lf_
+                for s1 in lt_:
+                    t2, f2 = self.branch(f, e["r"], s1)
+                    T += t2
+                    F += f2
+            else:
+                T += lt_
+                for s1 in lf_:
+                    t2, f2 = self.branch(f, e["r"], s1)
+                    T += t2
+                    F += f2
+            return T, F
         if isinstance(e, dict) and e.get("k") == "bin" and e["op"] in ("<", "<=", ">", ">=", "==", "!="):
             T, F = [], []
             for a, s1 in self.eval(f, e["l"], st):
